@@ -71,6 +71,18 @@ def _const_supplier(value: T) -> Callable[[], T]:
     return _supplier
 
 
+def _error_text(exc: BaseException) -> str:
+    """Text of ``exc`` for trace records; never raises.
+
+    ``str()`` of a user exception runs user code (``__str__``) and may fail; the
+    record of a failure must not replace the failure it describes.
+    """
+    try:
+        return str(exc)
+    except Exception:
+        return f"<unprintable {type(exc).__name__}>"
+
+
 class SemantivaOrchestrator(ABC):
     """Template-method orchestrator that centralises SER composition.
 
@@ -351,7 +363,7 @@ class SemantivaOrchestrator(ABC):
                                 {
                                     "code": type(exc).__name__,
                                     "result": "FAIL",
-                                    "details": {"error": str(exc)},
+                                    "details": {"error": _error_text(exc)},
                                 }
                             ]
                             + self._build_post_checks(
@@ -392,7 +404,7 @@ class SemantivaOrchestrator(ABC):
                             summaries=summaries,
                             error={
                                 "type": type(exc).__name__,
-                                "message": str(exc),
+                                "message": _error_text(exc),
                             },
                         )
                         trace_driver.on_node_event(ser)
@@ -405,7 +417,7 @@ class SemantivaOrchestrator(ABC):
         except BaseException as exc:
             if trace_driver is not None:
                 trace_driver.on_pipeline_end(
-                    run_token, {"status": "error", "error": str(exc)}
+                    run_token, {"status": "error", "error": _error_text(exc)}
                 )
             raise
         finally:
